@@ -12,3 +12,5 @@ def run(ctx, rep):
     from ..rules import more
     more.rule_colamd_args(mod, rep)
     more.rule_link_order(mod, rep)
+    from ..rules import more2
+    more2.rule_dim_row(mod, rep)
